@@ -332,6 +332,8 @@ impl Script {
         for (i, j) in swaps {
             if i < self.n && j < self.n {
                 self.sigs.swap(i, j);
+                // ... and with them their widened copies: a widened entry describes what the table says NOW
+                self.sigs.swap(self.n + i, self.n + j);
             }
         }
         if let Some(Fault::Err(code)) = fault {
@@ -1660,13 +1662,37 @@ fn run_case(c: &Case) -> String {
                             // that has just been bound - with the same driver script, with a driver of another layout, and after
                             // the caller edited the public `signals` (a default, a width) the way it would before a first run
                             {
-                                let mode = c.seed % 3;
+                                let has_reads = tc.try_iter_static().is_err();
+                                // (an edited input can change what an echoing device answers, hence what an output-reading
+                                // program does - possibly for ever: such tests are only run again as they are)
+                                let mode = if c.seed % 3 == 1 && c.echo && has_reads { 2 } else { c.seed % 3 };
                                 let mut c2 = c.clone();
                                 if mode == 0 && !c2.layout.is_empty() {
+                                    // another layout must not change what the PROGRAM does (a program that reads outputs may
+                                    // loop forever on other values): a test that reads no output gets its layout rotated;
+                                    // one that reads outputs gets a driver that lacks one of the outputs it reads, so that
+                                    // the constructor has to refuse it - for the used test as for a fresh one
+                                    let reads: Vec<String> = match tc.try_iter_static() {
+                                        Ok(_) => vec![],
+                                        Err(e) => {
+                                            let msg = format!("{e}");
+                                            msg.split_once("outputs: ").map(|x| x.1).unwrap_or("").split(", ").map(|x| x.to_string()).collect()
+                                        }
+                                    };
                                     let n = tc.signals.len();
-                                    let other = (0..n).find(|i| !c2.layout.contains(i) && !tc.signals[*i].is_input());
-                                    let first = c2.layout.remove(0);
-                                    c2.layout.push(other.unwrap_or(first));
+                                    if reads.is_empty() {
+                                        let other = (0..n).find(|i| !c2.layout.contains(i) && !tc.signals[*i].is_input());
+                                        let first = c2.layout.remove(0);
+                                        c2.layout.push(other.unwrap_or(first));
+                                    } else if let Some(pos) = c2.layout.iter().position(|i| *i < n && reads.contains(&tc.signals[*i].name)) {
+                                        let other = (0..n).find(|i| !c2.layout.contains(i) && !reads.contains(&tc.signals[*i].name));
+                                        match other {
+                                            Some(o) => c2.layout[pos] = o,
+                                            None => {
+                                                c2.layout.remove(pos);
+                                            }
+                                        }
+                                    }
                                 }
                                 let fresh = catch_unwind(AssertUnwindSafe(|| {
                                     ParsedTestCase::from_str(&c.src).ok().and_then(|p| p.with_signals(c.sigs.clone()).ok())
@@ -1674,7 +1700,6 @@ fn run_case(c: &Case) -> String {
                                 .unwrap_or(None);
                                 if let Some(mut fresh) = fresh {
                                     let mut used = tc.clone();
-                                    let mut used_direct = tc;
                                     for (i, b) in &c.rebits {
                                         if *i < fresh.signals.len() {
                                             fresh.signals[*i].bits = *b;
@@ -1698,7 +1723,8 @@ fn run_case(c: &Case) -> String {
                                     };
                                     edit(&mut fresh);
                                     edit(&mut used);
-                                    edit(&mut used_direct);
+                                    // the used test itself is edited IN PLACE (same object, same address) and is the first to run again
+                                    edit(&mut tc);
                                     let run_one = |t: &TestCase| {
                                         let mut b = String::new();
                                         let sh = Sh::default();
@@ -1711,6 +1737,7 @@ fn run_case(c: &Case) -> String {
                                         }
                                         b
                                     };
+                                    let direct = run_one(&tc);
                                     let a = run_one(&fresh);
                                     // a driver that itself parses, binds and iterates another test during every call
                                     let reentrant = if c.src.to_lowercase().contains("random") {
@@ -1721,7 +1748,7 @@ fn run_case(c: &Case) -> String {
                                         REENTRANT.with(|r| r.set(false));
                                         b
                                     };
-                                    let verdict = [("the used test", run_one(&used_direct)), ("a clone of the used test", run_one(&used)), ("a fresh test with a re-entrant driver", reentrant)]
+                                    let verdict = [("the used test", direct), ("a clone of the used test", run_one(&used)), ("a fresh test with a re-entrant driver", reentrant)]
                                         .iter()
                                         .find_map(|(who, b)| {
                                             if *b == a {
@@ -1743,23 +1770,15 @@ fn run_case(c: &Case) -> String {
                                     // resetRandom replays the run's own start, whatever the seed: the same test once more with
                                     // the generator seeded by the system; every two segments of draws agree as far as their bounds do
                                     if c.src.contains("random") {
-                                        verif_hooks::set_seed_override(None);
-                                        let _ = verif_hooks::take_rng_log();
-                                        let _ = catch_unwind(AssertUnwindSafe(|| {
-                                            let sh = Sh::default();
-                                            let mut d = DriverOverrideW(Script::new(c, &fresh.signals, sh.clone()));
-                                            if let Ok(it) = fresh.try_iter(&mut d) {
-                                                let mut k = 0;
-                                                for item in it {
-                                                    k += 1;
-                                                    if k >= c.max || (item.is_err() && !c.cont) {
-                                                        break;
-                                                    }
-                                                }
+                                        // (with other draws the program may take another course - even one that never ends: the run
+                                        // is made on a thread of its own and given up after a while; giving up is not a finding)
+                                        let log = match freerun_log(c) {
+                                            Some(log) => log,
+                                            None => {
+                                                out(&mut buf, "FREERUN same (given up: the run with other draws takes too long)");
+                                                vec![]
                                             }
-                                        }));
-                                        let log = verif_hooks::take_rng_log();
-                                        verif_hooks::set_seed_override(Some(c.seed));
+                                        };
                                         let mut segs: Vec<Vec<(i64, i64)>> = vec![vec![]];
                                         let mut bound = 0i64;
                                         for ev in &log {
@@ -1803,6 +1822,35 @@ fn run_case(c: &Case) -> String {
     }
     out(&mut buf, &format!("DONE {}", c.id));
     buf
+}
+
+/// The test of `c`, parsed and bound afresh, run on a thread of its own with the generator seeded by the system (no seed
+/// override on that thread); the generator events of that run, or None when the run does not end within 400 ms.
+fn freerun_log(c: &Case) -> Option<Vec<verif_hooks::RngEvent>> {
+    let c2 = c.clone();
+    let (tx, rx) = std::sync::mpsc::channel();
+    let spawned = std::thread::Builder::new().stack_size(64 << 20).spawn(move || {
+        let _ = verif_hooks::take_rng_log();
+        let _ = catch_unwind(AssertUnwindSafe(|| {
+            let Some(t) = ParsedTestCase::from_str(&c2.src).ok().and_then(|p| p.with_signals(c2.sigs.clone()).ok()) else { return };
+            let sh = Sh::default();
+            let mut d = DriverOverrideW(Script::new(&c2, &t.signals, sh.clone()));
+            if let Ok(it) = t.try_iter(&mut d) {
+                let mut k = 0;
+                for item in it {
+                    k += 1;
+                    if k >= c2.max || (item.is_err() && !c2.cont) {
+                        break;
+                    }
+                }
+            }
+        }));
+        let _ = tx.send(verif_hooks::take_rng_log());
+    });
+    if spawned.is_err() {
+        return None;
+    }
+    rx.recv_timeout(std::time::Duration::from_millis(400)).ok()
 }
 
 /// The run again through `Iterator`'s provided methods (seed % 5 == 2: `size_hint` before every item and the first
